@@ -356,6 +356,33 @@ if not self.connect():
 return self.transaction.execute(request)
 """
 
+TCP_RECV = """
+if not self.socket:
+    raise ConnectionException(self.__str__())
+self.socket.setblocking(0)
+timeout = self.timeout
+if size is None:
+    recv_size = 1
+else:
+    recv_size = size
+data = []
+data_length = 0
+time_ = time.time()
+end = time_ + timeout
+while recv_size > 0:
+    ready = select.select([self.socket], [], [], end - time_)
+    if ready[0]:
+        recv_data = self.socket.recv(recv_size)
+        data.append(recv_data)
+        data_length += len(recv_data)
+    time_ = time.time()
+    if size:
+        recv_size = size - data_length
+    if time_ > end:
+        break
+return b"".join(data)
+"""
+
 EXC_NAMES = {"socket.error": "OtherExc", "OSError": "OtherExc", "ModbusIOException": "ModbusIOExc",
              "InvalidMessageReceivedException": "InvalidMessageExc"}
 
@@ -486,6 +513,10 @@ def generate():
     if "(ModbusClientMixin)" not in sy.text or ast.unparse(sy.func("BaseModbusClient", "send").body[-1]) != "return self._send(request)" \
             or ast.unparse(sy.func("BaseModbusClient", "recv").body[-1]) != "return self._recv(size)":
         sy.fail(sy.cls("BaseModbusClient"), "BaseModbusClient.send/recv: unexpected shape")
+
+    # ---- ModbusTcpClient._recv: the deadline loop, pinned statement by statement (hand-modelled: Client.tcp_recv_loop)
+    f = sy.func("ModbusTcpClient", "_recv")
+    expect(sy, f, f.body, TCP_RECV, "ModbusTcpClient._recv")
 
     # ---- the decoder never raises: ClientDecoder.decode wraps _helper in try/except Exception and returns None
     #      (the `dec_total` premise of Props/C08_tcp.v / C13_tcp.v)
